@@ -739,17 +739,15 @@ func (e *sessEngine) Gen(r *rand.Rand, n int, tier string, w *bufio.Writer) {
 			x := r.Intn(100)
 			switch {
 			case len(oc) == 0 || (x < 30 && len(cs) < 6):
-				if authOn && expiries < 2 && r.Intn(2) == 0 {
-					// an expiring token: at most two quick ops in between, then wait for it
+				if authOn && !shut && expiries < 2 && r.Intn(2) == 0 {
+					// an expiring token, then straight to its expiry: only quick `dial`s (in-flight
+					// streams) in between, and a generous T, so that the expiry cannot pass before
+					// the `expire` op even on a loaded box (siblings come from the surrounding ops)
 					between := r.Intn(3)
-					t := 400 + 350*between + r.Intn(300)
+					t := 900 + 500*between + r.Intn(300)
 					c := connect(strconv.Itoa(t))
 					for j := 0; j < between; j++ {
-						if r.Intn(2) == 0 && len(cs) < 6 {
-							connect(plainTok())
-						} else {
-							fmt.Fprintf(w, "dial %d %d\n", c.k, r.Intn(2))
-						}
+						fmt.Fprintf(w, "dial %d %d\n", c.k, r.Intn(2))
 					}
 					fmt.Fprintf(w, "expire %d\n", c.k)
 					if !disable {
